@@ -37,6 +37,10 @@ Definition identity_fit (X : matrix) (n_features : nat) (k : option nat) : optio
   end.
 Definition identity_inverse (n_features : nat) : matrix := identity_matrix n_features.
 
+(* Custom.fit: the first k columns of the supplied matrix U (ncols columns); more modes than columns is rejected *)
+Definition custom_fit (U : matrix) (ncols k : nat) : option (matrix * nat) :=
+  if ncols <? k then None else Some (cols k U, k).
+
 (* ---- executable checkers for the oracle contracts (entrywise tolerance) ---- *)
 Definition Qcabs (x : Qc) : Qc := if Qle_bool 0 x then x else - x.
 Definition close (tol a b : Qc) : bool := Qle_bool (Qcabs (a - b)) tol.
